@@ -310,9 +310,35 @@ def native(seed=0, reduced=False):
         for i_, j_ in em.edges:
             nbrs[i_].append(j_)
             nbrs[j_].append(i_)
+        # locally Delaunay sites: every edge of every incident triangle passes the empty-circumcircle test against the opposite vertex
+        from collections import defaultdict
+        opp = defaultdict(list)
+        for tr in tri:
+            for a_, b_, c_ in ((tr[0], tr[1], tr[2]), (tr[1], tr[2], tr[0]), (tr[2], tr[0], tr[1])):
+                opp[frozenset((int(a_), int(b_)))].append(int(c_))
+        cc_all = m.dual_sites
+        rad2 = ((cc_all - pts[tri[:, 0]]) ** 2).sum(axis=1)
+        non_delaunay_sites = set()
+        for ti, tr in enumerate(tri):
+            for a_, b_ in ((tr[0], tr[1]), (tr[1], tr[2]), (tr[2], tr[0])):
+                for o_ in opp[frozenset((int(a_), int(b_)))]:
+                    if o_ not in tr and ((pts[o_] - cc_all[ti]) ** 2).sum() < rad2[ti] * (1 - 1e-9):
+                        non_delaunay_sites.update(int(x) for x in tr)
+                        non_delaunay_sites.add(o_)
+        # boundary edges must be unencroached: circumcentre of the adjacent triangle on the inner side of the edge
+        for e_ in em.boundary_edge_indices:
+            a_, b_ = em.edges[e_]
+            (o_,) = opp[frozenset((int(a_), int(b_)))][:1]
+            mid_ = (pts[a_] + pts[b_]) / 2
+            ti = [k_ for k_, tr in enumerate(tri) if a_ in tr and b_ in tr][0]
+            if np.dot(cc_all[ti] - mid_, pts[o_] - mid_) < 0:
+                non_delaunay_sites.update((int(a_), int(b_), int(o_)))
+        case["locally_delaunay_sites"] = len(pts) - len(non_delaunay_sites)
         mism = 0
         Rb = 1e3
         for i_, p_ in enumerate(pts):
+            if i_ in non_delaunay_sites or any(j_ in non_delaunay_sites for j_ in nbrs[i_]):
+                continue
             cell = dom
             for j_ in nbrs[i_]:
                 q_ = pts[j_]
@@ -321,7 +347,8 @@ def native(seed=0, reduced=False):
                 tt = np.array([-dd[1], dd[0]])
                 cell = cell.intersection(SPoly([mid + Rb * tt, mid - Rb * tt, mid - Rb * tt - Rb * dd, mid + Rb * tt - Rb * dd]))
             if cell.geom_type != "Polygon" and hasattr(cell, "geoms") and len(cell.geoms):
-                cell = max(cell.geoms, key=lambda g_: g_.area)
+                pp_ = Point(*p_)
+                cell = min(cell.geoms, key=lambda g_: g_.distance(pp_))      # the component that touches the site (a strip may continue beyond a hole)
             if abs(cell.area - m.areas[i_]) > 1e-6 * cell.area:
                 mism += 1
         if mism > max(3, len(pts) // 100):
